@@ -341,7 +341,8 @@ def fact_template_sets_pure() -> bool:
 
 
 # -- keyed sorts ---------------------------------------------------------------------------------------------------------
-SORT_SITE_MAP = {('lang/html/__init__.py', '_natural_sort'): 'SortHtmlNatural'}
+SORT_SITE_MAP = {('lang/html/__init__.py', '_natural_sort'): 'SortHtmlNatural',
+                 ('_namespace.py', 'get_nested_namespaces'): 'SortNestedNs'}
 
 
 def key_is_total(key: ast.AST, scope: ast.AST) -> bool:
@@ -375,6 +376,30 @@ def key_is_total(key: ast.AST, scope: ast.AST) -> bool:
     return isinstance(v, ast.Tuple) and len(v.elts) >= 2 and isinstance(v.elts[-1], ast.Name) and v.elts[-1].id in raw
 
 
+def key_is_identity_attr(key: ast.AST, tree: ast.AST, fn: ast.FunctionDef) -> bool:
+    """`sorted(<set of C>, key=lambda n: n.A)` inside class C whose __eq__ is exactly `self.A == other.A` (and whose __hash__
+    mentions only A): distinct members of the set have distinct keys, so the key needs no tie-breaker"""
+    if not (isinstance(key, ast.Lambda) and len(key.args.args) == 1 and isinstance(key.body, ast.Attribute)
+            and isinstance(key.body.value, ast.Name) and key.body.value.id == key.args.args[0].arg):
+        return False
+    attr = key.body.attr
+    for cls in [n for n in ast.walk(tree) if isinstance(n, ast.ClassDef)]:
+        if not any(x is fn for x in cls.body):
+            continue
+        eq = next((m for m in cls.body if isinstance(m, ast.FunctionDef) and m.name == '__eq__'), None)
+        hs = next((m for m in cls.body if isinstance(m, ast.FunctionDef) and m.name == '__hash__'), None)
+        if eq is None or hs is None:
+            return False
+        other = eq.args.args[1].arg if len(eq.args.args) == 2 else None
+        cmps = [n for n in ast.walk(eq) if isinstance(n, ast.Compare)]
+        ok_eq = len(cmps) == 1 and ast.unparse(cmps[0]) == 'self.%s == %s.%s' % (attr, other, attr)
+        rets = [ast.unparse(r.value) for r in ast.walk(eq) if isinstance(r, ast.Return) and r.value is not None]
+        ok_eq = ok_eq and set(rets) <= {ast.unparse(cmps[0]) if cmps else '', 'False', 'NotImplemented'}
+        hattrs = {n.attr for n in ast.walk(hs) if isinstance(n, ast.Attribute) and isinstance(n.value, ast.Name) and n.value.id == 'self'}
+        return ok_eq and hattrs == {attr}
+    return False
+
+
 def keyed_sorts(trees: typing.Dict[str, ast.Module]) -> typing.List[typing.Tuple[str, bool, str]]:
     out = []
     for rel, tree in trees.items():
@@ -392,7 +417,8 @@ def keyed_sorts(trees: typing.Dict[str, ast.Module]) -> typing.List[typing.Tuple
                 if inner:
                     continue
                 site = SORT_SITE_MAP.get((rel, fn.name), 'SortUnknown')
-                out.append((site, key_is_total(keys[0], fn), '%s %s line %d' % (rel, fn.name, node.lineno)))
+                total = key_is_total(keys[0], fn) or key_is_identity_attr(keys[0], tree, fn)
+                out.append((site, total, '%s %s line %d' % (rel, fn.name, node.lineno)))
     return out
 
 
@@ -731,6 +757,10 @@ def build() -> typing.Tuple[str, dict]:
     sorts = keyed_sorts(trees)
     nat = [t for s_, t, _ in sorts if s_ == 'SortHtmlNatural']
     facts['sf_natsort_total'] = bool(nat) and all(nat)
+    # get_nested_namespaces() is sorted by a total key and nothing else iterates _nested_namespaces
+    nested_iters = [(site, srt) for site, srt, _ in set_iterations(trees) if site in ('SetNestedIter', 'SetNestedBfs')]
+    nested_sort = [t for s_, t, _ in sorts if s_ == 'SortNestedNs']
+    facts['sf_nested_sorted'] = bool(nested_iters) and all(srt for _, srt in nested_iters) and bool(nested_sort) and all(nested_sort)
     iters = set_iterations(trees)
     lines = [gen.HEADER % 'src/nunavut/lang/{c,cpp,py,html}/{templates,support}/*.j2 and src/nunavut/**/*.py (tools/translators/gen_c07.py)',
              'From Coq Require Import List NArith.', 'From Verif Require Import Repro.', 'Import ListNotations.', 'Open Scope N_scope.', '']
